@@ -35,6 +35,53 @@ func runC08(c *Ctx) {
 	c08R9(c)
 	c08R10(c)
 	c08R11(c)
+	c08R12(c)
+}
+
+// c08R12: the split ledger's member count follows "one live member replaced by len(recs)".
+func c08R12(c *Ctx) {
+	r := c.R.Rule("R12", "K9 split ledger arithmetic: Batch.SplitRecord creates a run with total 1 (the member being replaced) and adds exactly len(recs)-1 per split — the count complete() compares terminalCount with", 2)
+	fn := c.SSA(r, pFunnel, "(*Batch).SplitRecord")
+	totalF := c.Field(r, pFunnel, "splitRun", "total")
+	if fn == nil || totalF == nil {
+		return
+	}
+	nInit, nInc := 0, 0
+	for _, st := range kit.FieldStores(fn, totalF) {
+		switch v := st.Val.(type) {
+		case *ssa.Const:
+			nInit++
+			c.R.Check(kit.IsIntConst(v, 1), r, "SplitRecord: a new run starts with one member", c.Pos(st.Pos()), "total: 1", "a new split run does not start with total 1", true)
+		case *ssa.BinOp:
+			nInc++
+			// total + (len(recs) - 1)  or  (total + len(recs)) - 1
+			ok := false
+			isTotal := func(x ssa.Value) bool { return kit.IsFieldLoad(x, totalF) }
+			isLen := func(x ssa.Value) bool { return kit.IsLenOf(x, nil) }
+			isLenM1 := func(x ssa.Value) bool {
+				b, ok := x.(*ssa.BinOp)
+				return ok && b.Op == token.SUB && isLen(b.X) && kit.IsIntConst(b.Y, 1)
+			}
+			if v.Op == token.ADD && ((isTotal(v.X) && isLenM1(v.Y)) || (isTotal(v.Y) && isLenM1(v.X))) {
+				ok = true
+			}
+			if v.Op == token.SUB && kit.IsIntConst(v.Y, 1) {
+				if a, isA := v.X.(*ssa.BinOp); isA && a.Op == token.ADD && ((isTotal(a.X) && isLen(a.Y)) || (isTotal(a.Y) && isLen(a.X))) {
+					ok = true
+				}
+			}
+			c.R.Check(ok, r, "SplitRecord: a split adds len(recs)-1 members", c.Pos(st.Pos()), "total += len(recs)-1", "the run's member count is not advanced by len(recs)-1: after a piece is split again terminalCount can never equal total, so the original position is never acked nor dead-lettered (or is released early)", true)
+		default:
+			c.R.Undecided(r, "SplitRecord: update of splitRun.total", c.Pos(st.Pos()), "unrecognised update of the run's member count")
+		}
+	}
+	// the literal form: &splitRun{..., total: 1}
+	if nInit == 0 {
+		c.R.Fail(r, "SplitRecord: new run initial total", c.Pos(fn.Pos()), "no initialisation of splitRun.total found (a new run must start with one member)")
+	}
+	if nInc == 0 {
+		c.R.Fail(r, "SplitRecord: member count update", c.Pos(fn.Pos()), "no update of splitRun.total found")
+	}
 }
 
 // c08R11: a filtered message stays filtered across the fan-out (F21).
@@ -319,7 +366,10 @@ func c08R2(c *Ctx) {
 }
 
 func c08R5(c *Ctx) {
-	r := c.R.Rule("R5", "K3 v1 position-change refusal: ProcessorNode.handleSingleRecord replaces the record and sends it on only on the bytes.Equal(processed position, original position) edge", 2)
+	c08R5As(c, c.R.Rule("R5", "K3 v1 position-change refusal: ProcessorNode.handleSingleRecord replaces the record and sends it on only on the bytes.Equal(processed position, original position) edge", 2))
+}
+
+func c08R5As(c *Ctx, r string) {
 	fn := c.SSA(r, pStream, "(*ProcessorNode).handleSingleRecord")
 	if fn == nil {
 		return
@@ -519,7 +569,10 @@ func c08R8(c *Ctx) {
 }
 
 func c08R9(c *Ctx) {
-	r := c.R.Rule("R9", "K6 filtered records keep their outcome: when a batch holds filtered records, Batch.setFlagNoErr/setFlagWithErr address recordStatuses only through the active-index map (or a split run's physical bounds), never by a raw logical index or span", 4)
+	c08R9As(c, c.R.Rule("R9", "K6 filtered records keep their outcome: when a batch holds filtered records, Batch.setFlagNoErr/setFlagWithErr address recordStatuses only through the active-index map (or a split run's physical bounds), never by a raw logical index or span", 4))
+}
+
+func c08R9As(c *Ctx, r string) {
 	active := c.Fn(r, pFunnel, "(*Batch).activeRecordIndices")
 	findSplit := c.Fn(r, pFunnel, "(*Batch).findSplitRecord")
 	statusesF := c.Field(r, pFunnel, "Batch", "recordStatuses")
